@@ -328,7 +328,7 @@ func c12Make(r *prng.R) *c12In {
 		case k < 8:
 			g.Script = dataScript(r, r.Bool(), prng.Pick(r, []int{-1, 0, 255, 256, 2000, 16385, 20000, 40000}))
 		case k < 9:
-			g.Script = nonDataScript(r, 1+r.Intn(50))
+			g.Script = nonDataOutputScript(r, 1+r.Intn(50))
 		default:
 			g.Script = []byte{}
 		}
